@@ -122,8 +122,24 @@ def run_cli_subprocess(module, argv, cwd):
     from vf.core import REPO
 
     env = dict(os.environ, PYTHONPATH=str(REPO))
-    p = subprocess.run([sys.executable, "-m", module] + argv, capture_output=True, text=True, env=env, cwd=cwd, timeout=300)
-    return p.returncode, p.stdout, p.stderr
+    # environment: the compile command's document goes to a pipe or a file whose encoding is the platform's (a Windows
+    # code page, ASCII under LANG=C ...), and the decompile command reads the document as UTF-8. The encoding of the
+    # child's stdout is a function of the source file's content.
+    enc = None
+    if module.endswith("cli.compile") and argv and os.path.isfile(argv[-1]):
+        import zlib
+
+        with open(argv[-1], "rb") as fh:
+            enc = ["cp1252", "ascii", "latin-1", "cp1252", "ascii", "latin-1", "cp1252", None][zlib.crc32(fh.read()) % 8]
+    if enc:
+        env["PYTHONIOENCODING"] = enc
+    p = subprocess.run([sys.executable, "-m", module] + argv, capture_output=True, env=env, cwd=cwd, timeout=300)
+    err = p.stderr.decode("utf-8", "replace")
+    try:
+        out = p.stdout.decode("utf-8")
+    except UnicodeDecodeError:
+        out = f"<<the document printed under PYTHONIOENCODING={enc} is not UTF-8, which is what the decompile command reads>>"
+    return p.returncode, out, err
 
 
 def check_structure(doc):
